@@ -5,8 +5,8 @@ PROP = {
     "gens": ["gen_api.py"],
     "rule": "Metamorphic: every public callable that takes a Vec3A / Mat3A / Affine3A / BVec3A (API table generated from the working tree, incl. all Vec3A swizzles, operators, trait impls and functions of other types taking them) is evaluated three times on bit-identical visible lanes - built with Vec3A::new and with two different hidden-lane contents injected through Vec3A::from_vec4 / mask comparisons - and all observations must be bit-identical; programs of up to 4 such calls feed each step glam's own outputs (raw registers kept). Non-trivial = the two hidden contents are in different classes and one is inf/NaN/all-ones/subnormal; distinct by (call id, hidden + argument bits).",
     "builds": {
-        "quick": [B("stable"), B("nightly", 0.25, False)],
-        "thorough": [B("stable"), B("nightly", 0.5, False)],
+        "quick": [B("stable"), B("fma", 0.25), B("nightly", 0.25, False)],
+        "thorough": [B("stable"), B("fma", 0.5), B("nightly", 0.5, False)],
     },
     "fuzz": {"target": "c08_program", "runs": {"thorough": 150000}},
     "volume": {"quick": 4},
